@@ -22,6 +22,7 @@ var commands = map[string]func([]string){
 	"c16": runC16,
 	"c17": runC17,
 	"c18": runC18,
+	"c19": runC19,
 }
 
 func main() {
